@@ -22,6 +22,33 @@ CHECKS = {
  "C06": ("exploration", "runtime monitor: go/types resolution of bare identifiers through dot imports / local declarations; import spec inspection",
          "Scenarios biased to local paths (NewFilePath, NewFilePathName), near-misses of the local path, 0-n dot imports, prefix; bare identifiers must resolve through `import . \"p\"` or to the local package, near-misses must be imported normally.",
          TB, "5 C06"),
+ "C07": ("exploration", "runtime monitor: byte equality of repeated fresh constructions in-process (K=32/96) and across child processes; probe nodes record the map iteration orders jennifer's loops actually took",
+         "Recipes rich in maps (Dicts with colliding qualified keys, nested Dicts, Tags incl. case-variant keys, ImportNames/Anon tables, import scenarios) are rebuilt and rendered many times and in 4/16 child processes; all outputs must be byte-identical. Map orders cannot be forced; the evidence reports the distinct orders observed.",
+         TB + " Go's randomised map iteration provides the order diversity.", "5 C07"),
+ "C08": ("exploration", "runtime monitor: offline checker over recorded render histories (repeat-equal, name-monotone, declared invariants)",
+         "Random histories of File.Render / Statement.RenderWithFile / Group.RenderWithFile (each done twice), additions, later ImportName/ImportAlias (incl. dot), Anon, prefix toggles; every event is recorded and the log judged offline.",
+         TB + " Anon on an already referenced path is excluded, as the statement says.", "5 C08"),
+ "C11": ("exploration", "runtime monitor: go/types constant evaluation of rendered literals (value and type) over exhaustive and boundary value domains",
+         "Exhaustive bool/8-bit (and 16-bit in thorough); limits, 2^k+-1, 10^k+-1 and random values for wider integers; floats: +-0, subnormals, extremes, every decade +-1ulp, integral values of every decimal length, random bits; complex pairs. Rendered in batches via Lit, Lit+NoFormat and LitFunc, type-checked with go/types, compared with v and its type.",
+         TB + " 'exactly v' for floats = converts to exactly v in its type; +-0 identified.", "5 C11"),
+ "C12": ("exploration", "runtime monitor: go/scanner token stream of rendered hosts + strconv.Unquote / go/constant / go/types on the literal",
+         "Adversarial and random byte strings (one token, exact value), every valid code point in thorough (boundaries + samples in quick), all 256 bytes; formatted, NoFormat and *Func variants.",
+         TB, "5 C12"),
+ "C13": ("exploration", "runtime monitor: differential rendering with and without injected null-ish items (raw bytes), Empty() marker substitution, two-phase re-render, and AST comparison against the source program for corpus injection",
+         "Every list construct x arity 0-5 x every subset of gaps (complete) plus random arity 0-12, multiplicities and Empty() positions; two-phase cases (null statement given a token after a first render); null injection into every list of real programs.",
+         TB, "5 C13"),
+ "C16": ("exploration", "runtime monitor: composite literal parsed back from the rendering, multiset and order of (key,value) pairs with unique value markers",
+         "Random Dicts of 0-40 pairs (literals, identifiers, prefix-related keys, calls, qualified identifiers, composites, render-identical duplicates, null sides), formatted, NoFormat and DictFunc.",
+         TB + " Both 'as written' and 'as formatted' key text orders are admitted.", "5 C16"),
+ "C17": ("exploration", "runtime monitor: tag literal -> strconv.Unquote -> reflect.StructTag.Lookup for every key; key order; batch of 1,000 fields per struct",
+         "Random maps of 0-8 keys over the conventional key alphabet to arbitrary byte strings (quotes, backquotes, newlines, invalid UTF-8); nil/empty maps.",
+         TB, "5 C17"),
+ "C19": ("exploration", "runtime monitor: import declarations and doc comment groups of the parsed output over the complete cgo combination matrix",
+         "All 12,960 combinations of {Qual C, Anon C before/after preambles} x preamble subsets/orders x other-import shapes x prefix x hints naming \"C\", formatted and NoFormat — enumerated completely in both tiers.",
+         TB, "5 C19"),
+ "C20": ("exploration", "runtime monitor: offline checker over recorded clone/append histories against a list model (live and snapshot views admitted)",
+         "Random histories over a tree of cloned Statement handles with capacity-aware appends; after every step every handle is rendered (Render and inside a File) and tokenised.",
+         TB, "5 C20"),
 }
 
 NOT_YET = {}
